@@ -1,5 +1,6 @@
 (* C20 - the lemmas Properties.v closes its theorems with. *)
-From VF.C20 Require Import Model Spec Lemmas ProofsWF ProofsWF2 ProofsWF3.
+From VF.C20 Require Import Model Spec Lemmas ProofsWF ProofsWF2 ProofsWF3 ProofsCaps ProofsNonce ProofsNonce2 ProofsNonce3 ProofsNonce4 ProofsNonce5.
+From Coq Require Import Lia ZifyBool ZifyN ZifyNat.
 Local Open Scope N_scope.
 
 Lemma held_lst m a : held m a = lst m a.
@@ -36,3 +37,91 @@ Proof.
   - vm_compute. split; [discriminate|reflexivity].
   - vm_compute in Hin. repeat (destruct Hin as [<-|Hin]; [vm_compute in Hn; discriminate|]). destruct Hin.
 Qed.
+
+(* ---- state-relative clauses -------------------------------------------------- *)
+Lemma pooled_valid_all_histories c g ops : pooled_valid (run (new_pool c g) ops).
+Proof.
+  intros t Ht. pose proof (val_run ops (new_pool c g) (sc_new_pool c g) (ni_val _ (ni_new_pool c g)) t Ht) as H.
+  exact H.
+Qed.
+
+Lemma ni_all_histories c g ops :
+  gapfix c = true \/ gap_seen (run (new_pool c g) ops) = false -> NI (run (new_pool c g) ops).
+Proof.
+  intro H. apply ni_run; [apply sc_new_pool|apply ni_new_pool|].
+  destruct (fr_reset (mkPool c (price_limit c) [] (mkNoncer [] []) 0 (cfg_locals c) [] [] [] [] 1 [g] false false) None (b_hdr g)) as [Ec _].
+  unfold new_pool. rewrite Ec. exact H.
+Qed.
+
+Definition state_clauses (p : pool) : Prop := pending_gapfree p /\ queued_above p /\ pool_nonce_sound p.
+
+Lemma state_clauses_of_ni p : WS p -> NI p -> state_clauses p.
+Proof.
+  intros [W _] [V G N _]. split; [|split].
+  - intros a t m Ht Hm. exact (G a t m Ht Hm).
+  - intros a t t' Ht Ht'.
+    assert (Hq : sn p a <= t_nonce t').
+    { assert (O : okv p t') by (apply V; eapply (w_qall _ _ W); eauto).
+      destruct O as [O _]. rewrite (w_qfrom _ _ W _ _ Ht') in O. exact O. }
+    destruct (N.ltb (t_nonce t) (t_nonce t')) eqn:E; [lia|]. exfalso.
+    destruct (N.eq_dec (t_nonce t') (t_nonce t)) as [En|En].
+    + eapply (w_dpq _ _ W a t t'); eauto.
+    + destruct (G a t (t_nonce t') Ht) as (x & Hx & Ex); [lia|]. eapply (w_dpq _ _ W a x t'); eauto.
+  - intros a m Hm. exact (N a m Hm).
+Qed.
+
+Lemma gapfree_holds_outside c g ops :
+  gap_seen (run (new_pool c g) ops) = false -> state_clauses (run (new_pool c g) ops).
+Proof.
+  intro H. apply state_clauses_of_ni; [apply ws_run, ws_new_pool|apply ni_all_histories; auto].
+Qed.
+
+Lemma gapfree_repaired c g ops :
+  gapfix c = true -> state_clauses (run (new_pool c g) ops).
+Proof.
+  intro H. apply state_clauses_of_ni; [apply ws_run, ws_new_pool|apply ni_all_histories; auto].
+Qed.
+
+(* ---- Pending() ---------------------------------------------------------------- *)
+Lemma pending_view_exact p : SC p -> pending_api_exact p.
+Proof.
+  intro S. unfold pending_api_exact, pending_view.
+  assert (K : forall keys out q, SC q -> (forall b, lst (pending q) b = lst (pending p) b) ->
+     let r := fold_left (fun acc a =>
+               let '(out, p) := acc in
+               match aget (pending p) a with
+               | None => (out, p)
+               | Some l => let '(flat, l') := l_flatten l in
+                           (out ++ [(a, flat)], set_pending p (aset (pending p) a l'))
+               end) keys (out, q) in
+     (forall a flat, In (a, flat) (fst r) -> In (a, flat) out \/ flat = sort_nonce (lst (pending p) a)) /\
+     (forall a, (In a keys /\ lst (pending p) a <> []) \/ (exists flat, In (a, flat) out) -> exists flat, In (a, flat) (fst r))).
+  { induction keys as [|k r IH]; intros out q Sq Eq; cbn [fold_left].
+    - cbn. split; [auto|]. intros a [[[] _]|H]; auto.
+    - destruct (aget (pending q) k) as [l|] eqn:G.
+      + destruct (l_flatten l) as [flat l'] eqn:F.
+        destruct (capok_flatten _ _ _ F (proj1 (proj2 Sq) _ _ G)) as [_ Hf].
+        destruct (l_flatten_items _ _ _ F) as (I & _).
+        assert (Lk : lst (pending q) k = litems l) by (apply lst_some; auto).
+        destruct (IH (out ++ [(k, flat)]) (set_pending q (aset (pending q) k l'))) as [H1 H2].
+        * eapply (sc_flatten_p q); eauto.
+        * intro b. cbn [pending set_pending]. rewrite lst_aset. destruct (N.eqb k b) eqn:E; auto.
+          apply N.eqb_eq in E. subst b. rewrite I, <- Lk. auto.
+        * cbn zeta in *. split.
+          -- intros a fl Hin. destruct (H1 a fl Hin) as [H|H]; auto.
+             apply in_app_or in H as [H|[H|[]]]; auto. inversion H; subst. right. rewrite <- Eq, Lk. auto.
+          -- intros a [[[->|Ha] Hne]|(fl & Hfl)]; apply H2.
+             ++ right. exists flat. apply in_or_app. right. left. auto.
+             ++ left. auto.
+             ++ right. exists fl. apply in_or_app. auto.
+      + destruct (IH out q Sq Eq) as [H1 H2]. cbn zeta in *. split; auto.
+        intros a [[[->|Ha] Hne]|H]; apply H2; auto.
+        exfalso. apply Hne. rewrite <- Eq. unfold lst. rewrite G. auto. }
+  destruct (K (akeys (pending p)) [] p S (fun b => eq_refl)) as [H1 H2]. cbn zeta in *. split.
+  - intros a flat Hin. destruct (H1 a flat Hin) as [[]|H]. exact H.
+  - intros a Hne. apply H2. left. split; auto.
+    unfold held in Hne. destruct (aget (pending p) a) eqn:G; [|congruence]. eapply aget_in_keys; eauto.
+Qed.
+
+Lemma pending_api_all_histories c g ops : pending_api_exact (run (new_pool c g) ops).
+Proof. apply pending_view_exact, sc_run, sc_new_pool. Qed.
